@@ -213,6 +213,11 @@ func VerifSplice() {
 
 var errSrc = errors.New("source failure")
 
+type vWrapErr struct{ inner error }
+
+func (w vWrapErr) Error() string { return "wrapped: " + w.inner.Error() }
+func (w vWrapErr) Unwrap() error { return w.inner }
+
 // an error from the source reader at any offset surfaces as an error on the output stream; what was released before
 // is a prefix of the plaintext
 //
@@ -226,8 +231,12 @@ func VerifSourceError() {
 		X = append(X, c...)
 	}
 	at := zzverif.Choose("fail_at", len(X)+1)
-	out, err := vDecryptStream(d.fk, &vReader{data: X, failAt: at, failErr: errSrc, split: 1, errWithData: zzverif.Bool("error_together_with_data")})
-	zzverif.Assert(errors.Is(err, errSrc), "source_error_surfaces_on_output")
+	// the failure is any error value a reader may return other than io.EOF, including the io package's own
+	fails := []error{errSrc, io.ErrUnexpectedEOF, vWrapErr{io.ErrUnexpectedEOF}, io.ErrClosedPipe, io.ErrNoProgress, io.ErrShortBuffer}
+	fe := fails[zzverif.Choose("source_error_kind", len(fails))]
+	out, err := vDecryptStream(d.fk, &vReader{data: X, failAt: at, failErr: fe, split: 1, errWithData: zzverif.Bool("error_together_with_data")})
+	zzverif.Assert(err != nil && err != io.EOF, "source_error_does_not_end_cleanly")
+	zzverif.Assert(errors.Is(err, fe), "source_error_surfaces_on_output")
 	zzverif.Assert(vIsPrefix(out, d.plain), "released_bytes_are_prefix_of_plaintext")
 	zzverif.Cover("source_error_done")
 }
